@@ -8,7 +8,8 @@ Open Scope N_scope.
 Record case11 := mk11 {
   c_dim : nat;                                   (* D *)
   c_pts : list (list N);                         (* one list of D coordinates (f64 bit patterns) per point *)
-  c_ws : list Z;                                 (* integer-valued f64 weights *)
+  c_ws : list Z;                                 (* weights = c_ws * 2^c_wexp, exactly representable in f64 *)
+  c_wexp : Z;
   c_k : N;                                       (* part_count *)
   c_iter : nat;                                  (* max_iter *)
   c_blk : nat;                                   (* block length the model's scan uses (any value must do) *)
@@ -142,7 +143,9 @@ Definition eval11 (c : case11) : verdict :=
   let blk (l : list nat) := repeat (c_blk c) (length l) in
   let p0 := repeat unwritten n in
   (* model runs *)
-  let wf := map f64_of_Z (c_ws c) in
+  let wf := map (fun z => binary_normalize 53 1024 z (c_wexp c) false) (c_ws c) in
+  let wq := map (fun z => if (0 <=? c_wexp c)%Z then inject_Z (z * 2 ^ c_wexp c)
+                          else Qmake z (Z.to_pos (2 ^ (- c_wexp c)))) (c_ws c) in
   let sch_model := partition_scheme F64 root k m in
   let scheme_ok :=
     match sch_model, c_scheme c with
@@ -161,7 +164,7 @@ Definition eval11 (c : case11) : verdict :=
     | Panic _, IPanic => true
     | _, _ => false
     end in
-  let r_exact := multi_jagged QA D n (map inject_Z (c_ws c)) sorter blk root N.of_nat k m p0 in
+  let r_exact := multi_jagged QA D n wq sorter blk root N.of_nat k m p0 in
   let exact_agrees :=
     match r_model, r_exact with
     | Ok p, Ok p' => list_eqb N.eqb p p'
